@@ -5,6 +5,7 @@
   trigger does (the head of the queue becomes active and is sent).
 -/
 import BacVerif.Lemmas.IocbOnce
+import BacVerif.Lemmas.IocbInv
 namespace BacVerif.Iocb
 set_option linter.unusedSimpArgs false
 set_option linter.unusedVariables false
@@ -57,169 +58,79 @@ theorem lookupQ_delQ (l : List (Addr × Q)) (a : Addr) : lookupQ (delQ l a) a = 
       simp only [this, if_true, lookupQ, if_neg hb]
       exact ih
 
-/-- the queues after an operation are the queues before, up to one IOCB
-    having left the waiting list of one queue object -/
-def QSame (l l' : List (Addr × Q)) : Prop :=
-  l' = l ∨ ∃ a j, l' = updQ l a (fun x => { x with queue := removeId x.queue j })
+/-- after `release`: every queue object with that serial is idle without active IOCB -/
+theorem release_entries (s : St) (a : Nat) :
+    ∀ e ∈ (release s a).queues, e.2.qid = a → e.2.active = none ∧ e.2.busy = false := by
+  intro e he hea
+  simp only [release] at he
+  obtain ⟨e0, _, rfl⟩ := mem_updQ he
+  by_cases h0 : e0.2.qid = a
+  · rw [if_pos h0]; exact ⟨rfl, rfl⟩
+  · rw [if_neg h0] at hea; exact absurd hea h0
 
-theorem removeId_nil (j : Nat) : removeId [] j = [] := rfl
-
-theorem QSame.find {l l' : List (Addr × Q)} (h : QSame l l') {b : Nat} {q : Q} (hq : findQ l b = some q) :
-    ∃ q', findQ l' b = some q' ∧ q'.qid = q.qid ∧ q'.active = q.active ∧ q'.busy = q.busy ∧
-      (q.queue = [] → q'.queue = []) := by
-  rcases h with h | ⟨a, j, h⟩
-  · subst h; exact ⟨q, hq, rfl, rfl, rfl, id⟩
-  · subst h
-    rw [findQ_updQ l a b (fun x => { x with queue := removeId x.queue j }) (fun _ => rfl), hq]
-    simp only [Option.map_some]
-    by_cases ha : q.qid = a
-    · simp only [ha, if_true]
-      exact ⟨_, rfl, rfl, rfl, rfl, fun h => by simp [h, removeId_nil]⟩
-    · simp only [ha, if_false]
-      exact ⟨q, rfl, rfl, rfl, rfl, id⟩
-
-theorem fire_q (s : St) (j : Nat) :
-    QSame s.queues (fire s j).1.queues ∧ (fire s j).1.deferred = s.deferred := by
-  unfold fire
-  split
-  · exact ⟨Or.inl rfl, rfl⟩
-  · dsimp only
-    split
-    · exact ⟨Or.inr ⟨_, _, rfl⟩, rfl⟩
-    · exact ⟨Or.inl rfl, rfl⟩
-
-theorem baseComplete_q (s : St) (j : Nat) (msg : Option Nat) :
-    QSame s.queues (baseComplete s j msg).1.queues ∧ (baseComplete s j msg).1.deferred = s.deferred := by
-  unfold baseComplete
-  split
-  · exact ⟨Or.inl rfl, rfl⟩
-  · split
-    · exact ⟨Or.inl rfl, rfl⟩
-    · split
-      · exact ⟨Or.inl rfl, rfl⟩
-      · exact fire_q _ _
-
-theorem baseAbort_q (s : St) (j err : Nat) :
-    QSame s.queues (baseAbort s j err).1.queues ∧ (baseAbort s j err).1.deferred = s.deferred := by
-  unfold baseAbort
-  split
-  · exact ⟨Or.inl rfl, rfl⟩
-  · split
-    · exact ⟨Or.inl rfl, rfl⟩
-    · split
-      · exact ⟨Or.inl rfl, rfl⟩
-      · exact fire_q _ _
-
-/-- after `release`: the queue object is idle without active IOCB, its trigger is deferred -/
-theorem release_find {s : St} {b : Nat} {q : Q} (hq : findQ s.queues b = some q) :
-    findQ (release s b).queues b = some { q with active := none, busy := false } ∧
-    (release s b).deferred = s.deferred ++ [b] := by
-  have hb : q.qid = b := findQ_qid hq
-  refine ⟨?_, rfl⟩
-  simp only [release]
-  rw [findQ_updQ s.queues b b (fun x => { x with active := none, busy := false }) (fun _ => rfl), hq]
-  simp [hb]
-
-/-- what a confirmation (ack or error class) does to the queue object of its
-    source address, `q`, whose active IOCB is `id` -/
-theorem appComplete_released {s : St} {addr : Addr} {q : Q} {id : Nat} (kind : Conf) (msg : Option Nat)
-    (hq : lookupQ s.queues addr = some q) (ha : q.active = some id) (hk : kind ≠ .other)
-    (hfirst : findQ s.queues q.qid = some q) :
-    q.qid ∈ (appComplete s addr kind msg).1.deferred ∧
-    (q.queue = [] → lookupQ (appComplete s addr kind msg).1.queues addr = none) ∧
-    (∀ q', findQ (appComplete s addr kind msg).1.queues q.qid = some q' →
-        q'.active = none ∧ q'.busy = false) := by
+/-- what an ack-class confirmation does to the queue object `q` of its source
+    address, whose active IOCB is `id` — for ANY callback behaviour that keeps
+    the invariant (re-entrant submissions and aborts included): afterwards
+      * its `_trigger` is deferred,
+      * whatever object carries its serial is idle without active IOCB,
+      * the address still maps to this object only if IOCBs are waiting in it
+        (otherwise `del queue_by_address[addr]`: forgotten). -/
+theorem appComplete_released {F : Cb} (hF : CbGood F) {x : Option Nat} {s : St} (hgood : Good x s)
+    {addr : Addr} {q : Q} {id : Nat} (msg : Option Nat)
+    (hq : lookupQ s.queues addr = some q) (ha : q.active = some id) :
+    q.qid ∈ (appComplete F s addr .ack msg).1.deferred ∧
+    (∀ q', findQ (appComplete F s addr .ack msg).1.queues q.qid = some q' →
+        q'.active = none ∧ q'.busy = false) ∧
+    (∀ q'', lookupQ (appComplete F s addr .ack msg).1.queues addr = some q'' → q''.qid = q.qid →
+        q''.queue ≠ []) := by
   unfold appComplete
   rw [hq]
   simp only [ha]
-  -- the state after complete_io / abort_io of the active IOCB: released
-  have key : ∀ (s1 : St) (o : List Out), QSame s.queues s1.queues → s1.deferred = s.deferred →
-      q.qid ∈ (match findQ (release s1 q.qid).queues q.qid with
-        | none => (release s1 q.qid, o)
-        | some q' => if (q'.queue.isEmpty && q'.active.isNone) = true then
-            ({ release s1 q.qid with queues := delQ (release s1 q.qid).queues addr }, o)
-          else (release s1 q.qid, o)).1.deferred ∧
-      (q.queue = [] → lookupQ (match findQ (release s1 q.qid).queues q.qid with
-        | none => (release s1 q.qid, o)
-        | some q' => if (q'.queue.isEmpty && q'.active.isNone) = true then
-            ({ release s1 q.qid with queues := delQ (release s1 q.qid).queues addr }, o)
-          else (release s1 q.qid, o)).1.queues addr = none) ∧
-      (∀ q'', findQ (match findQ (release s1 q.qid).queues q.qid with
-        | none => (release s1 q.qid, o)
-        | some q' => if (q'.queue.isEmpty && q'.active.isNone) = true then
-            ({ release s1 q.qid with queues := delQ (release s1 q.qid).queues addr }, o)
-          else (release s1 q.qid, o)).1.queues q.qid = some q'' → q''.active = none ∧ q''.busy = false) := by
-    intro s1 o hsame hdef
-    obtain ⟨q1, hq1, _, _, _, hempty⟩ := hsame.find hfirst
-    obtain ⟨hr1, hr2⟩ := release_find hq1
-    rw [hr1]
+  unfold qComplete
+  have hg1 := baseComplete_good hF hgood id msg
+  cases hbc : baseComplete F s id msg with
+  | mk s1 o =>
+  rw [hbc] at hg1
+  dsimp only at hg1 ⊢
+  have hg2 := release_good hg1 q.qid
+  have hrel := release_entries s1 q.qid
+  have hdef : q.qid ∈ (release s1 q.qid).deferred := by simp [release]
+  cases hf : findQ (release s1 q.qid).queues q.qid with
+  | none =>
+    refine ⟨hdef, ?_, ?_⟩
+    · intro q' hq'; rw [hf] at hq'; cases hq'
+    · intro q'' hl hqq
+      exact absurd hqq (findQ_none_iff.1 hf _ (mem_of_lookupQ hl))
+  | some q1 =>
+    obtain ⟨a1, hm1, hq1⟩ := mem_of_findQ hf
+    have hq1r : q1.active = none ∧ q1.busy = false := hrel (a1, q1) hm1 hq1
     dsimp only
     split
-    · refine ⟨by simp [release], fun _ => lookupQ_delQ _ _, ?_⟩
-      intro q'' hq''
-      -- whatever is left under that serial after the deletion was released too
-      have : ∀ (l : List (Addr × Q)) (x : Q), findQ (delQ l addr) q.qid = some x →
-          (∀ a y, (a, y) ∈ l → y.qid = q.qid → y.active = none ∧ y.busy = false) →
-          x.active = none ∧ x.busy = false := by
-        intro l
-        induction l with
-        | nil => intro x hx; simp [delQ, findQ] at hx
-        | cons z zs ih =>
-          obtain ⟨a, y⟩ := z
-          intro x hx hall
-          simp only [delQ, List.filter] at hx ih
-          by_cases haa : a = addr
-          · simp only [haa, ne_eq, not_true_eq_false, decide_false] at hx
-            exact ih x hx (fun a' y' hm => hall a' y' (List.mem_cons_of_mem _ hm))
-          · simp only [haa, ne_eq, not_false_eq_true, decide_true, findQ] at hx
-            split at hx
-            · rename_i hy
-              cases hx
-              exact hall a y List.mem_cons_self hy
-            · exact ih x hx (fun a' y' hm => hall a' y' (List.mem_cons_of_mem _ hm))
-      apply this _ _ hq''
-      intro a y hm hy
-      simp only [release, updQ, List.mem_map] at hm
-      obtain ⟨⟨a0, y0⟩, _, h0⟩ := hm
-      dsimp only at h0
-      split at h0
-      · cases h0; exact ⟨rfl, rfl⟩
-      · rename_i hne
-        cases h0
-        exact absurd hy hne
+    · refine ⟨hdef, ?_, ?_⟩
+      · intro q' hq'
+        obtain ⟨a', hm', hqq'⟩ := mem_of_findQ hq'
+        exact hrel (a', q') (mem_delQ hm') hqq'
+      · intro q'' hl _
+        rw [lookupQ_delQ] at hl; cases hl
     · rename_i hne
-      refine ⟨by simp [release], ?_, ?_⟩
-      · intro he
-        simp [hempty he] at hne
-      · intro q'' hq''
-        rw [hr1] at hq''
-        cases hq''
-        exact ⟨rfl, rfl⟩
-  cases kind with
-  | other => exact absurd rfl hk
-  | ack =>
-    dsimp only
-    unfold qComplete
-    obtain ⟨h1, h2⟩ := baseComplete_q s id msg
-    exact key _ _ h1 h2
-  | err =>
-    dsimp only
-    unfold qAbort
-    obtain ⟨h1, h2⟩ := baseAbort_q s id (msg.getD 0)
-    obtain ⟨q1, hq1, _, hact, _, _⟩ := h1.find hfirst
-    dsimp only
-    rw [hq1]
-    simp only [hact, ha, ne_eq, not_true_eq_false, if_false]
-    exact key _ _ h1 h2
+      refine ⟨hdef, ?_, ?_⟩
+      · intro q' hq'
+        rw [hf] at hq'; cases hq'; exact hq1r
+      · intro q'' hl hqq
+        have : q'' = q1 := findQ_unique hg2.ub hf (mem_of_lookupQ hl) hqq
+        subst this
+        intro hempty
+        apply hne
+        simp [hempty, hq1r.1]
 
 /-- **the deferred trigger launches the head of the queue** -/
-theorem trigger_launches {s : St} {qid : Nat} {q : Q} {p id : Nat} {rest : List (Nat × Nat)} {io : Iocb}
+theorem trigger_launches (F : Cb) {s : St} {qid : Nat} {q : Q} {p id : Nat} {rest : List (Nat × Nat)} {io : Iocb}
     (hq : findQ s.queues qid = some q) (hb : q.busy = false) (hqueue : q.queue = (p, id) :: rest)
     (hio : s.iocbs[id]? = some io) (hst : io.st = .pending) (hf : io.fails = false)
     (hu : io.unconf = false) :
-    (trigger s qid).2 = [.sent id] ∧
-    findQ (trigger s qid).1.queues qid = some { q with busy := true, active := some id, queue := rest } ∧
-    (trigger s qid).1.iocbs[id]? = some { io with inq := none, st := .active } := by
+    (trigger F s qid).2 = [.sent id] ∧
+    findQ (trigger F s qid).1.queues qid = some { q with busy := true, active := some id, queue := rest } ∧
+    (trigger F s qid).1.iocbs[id]? = some { io with inq := none, st := .active } := by
   have hqq : q.qid = qid := findQ_qid hq
   have hio' : (updI s.iocbs id fun x => { x with inq := none })[id]? = some { io with inq := none } := by
     simp [getElem?_updI, hio]
